@@ -45,7 +45,10 @@ type frFault struct {
 var frFaultsFor = map[string][]string{
 	// size0/sizes0/sizeplus/sizeminus: a well-formed manifest whose size members do not describe the layers
 	// (one layer 0, all 0 - the same as leaving the member out -, one layer larger, one layer smaller)
-	"manifest": {"s500", "s503", "s404", "s401", "connerr", "trunc", "reset", "badjson", "stall", "size0", "sizes0", "sizeplus", "sizeminus"},
+	"manifest": {"s500", "s503", "s404", "s401", "connerr", "trunc", "reset", "badjson", "stall", "size0", "sizes0", "sizeplus", "sizeminus",
+		// a well-formed manifest whose digest members are unusual: one empty / too short / not hex, or all spelled in
+		// the second form GetBlobsPath accepts ("sha256-<hex>") or in upper-case hex
+		"digest_empty", "digest_short", "digest_garbage", "digest_dash", "digest_upper"},
 	"head":     {"s500", "s404", "s401", "connerr", "lenplus", "lenminus", "nolen"},
 	"blob":     {"s500", "s502", "s404", "s401", "connerr", "samehost", "noredirect", "chain"},
 	"cdn":      {"s500", "s503", "s404", "s416", "connerr", "trunc", "reset", "flip", "stall", "stallforever", "norange"},
@@ -302,6 +305,7 @@ func (r *frRegistry) RoundTrip(req *http.Request) (*http.Response, error) {
 				r.sizeLied[d] = true
 			}
 		}
+		frDigestFault(&mf, fault, f)
 		if r.lastManifest == nil {
 			r.lastManifest = map[string]Manifest{}
 		}
@@ -483,6 +487,40 @@ func frModelsDir(scratch string) string {
 	return d
 }
 
+// frDigestFault rewrites digest members of a manifest about to be served.
+func frDigestFault(mf *Manifest, fault string, f *frFault) {
+	if f == nil || !strings.HasPrefix(fault, "digest_") {
+		return
+	}
+	all := make([]*Layer, 0, len(mf.Layers)+1)
+	for i := range mf.Layers {
+		all = append(all, &mf.Layers[i])
+	}
+	if mf.Config.Digest != "" {
+		all = append(all, &mf.Config)
+	}
+	if len(all) == 0 {
+		return
+	}
+	one := all[f.Arg%len(all)]
+	switch fault {
+	case "digest_empty":
+		one.Digest = ""
+	case "digest_short":
+		one.Digest = one.Digest[:min(len(one.Digest), 7+f.Arg%12)]
+	case "digest_garbage":
+		one.Digest = "sha256:" + strings.Repeat("zz", 32)
+	case "digest_dash":
+		for _, l := range all {
+			l.Digest = strings.Replace(l.Digest, "sha256:", "sha256-", 1)
+		}
+	case "digest_upper":
+		for _, l := range all {
+			l.Digest = "sha256:" + strings.ToUpper(strings.TrimPrefix(l.Digest, "sha256:"))
+		}
+	}
+}
+
 // frCheckStore verifies that every layer of the manifest the name resolves to is present with the right size and hash.
 // sizeLied: digests whose size a served manifest misstated - for those only the hash decides (no file can have both
 // the manifest's size and the manifest's digest).
@@ -493,11 +531,12 @@ func frCheckStore(name string, want *Manifest, sizeLied ...map[string]bool) erro
 		return fmt.Errorf("stored manifest of %s unreadable: %v", name, err)
 	}
 	if want != nil {
-		if len(got.Layers) != len(want.Layers) || got.Config.Digest != want.Config.Digest {
+		if len(got.Layers) != len(want.Layers) || strings.Replace(got.Config.Digest, "sha256-", "sha256:", 1) != strings.Replace(want.Config.Digest, "sha256-", "sha256:", 1) {
 			return fmt.Errorf("stored manifest of %s has %d layers / config %s, served manifest has %d layers / config %s", name, len(got.Layers), got.Config.Digest, len(want.Layers), want.Config.Digest)
 		}
 		for i := range want.Layers {
-			if got.Layers[i].Digest != want.Layers[i].Digest || got.Layers[i].Size != want.Layers[i].Size || got.Layers[i].MediaType != want.Layers[i].MediaType {
+			// (digests compared modulo the separator: a manifest served with "sha256-<hex>" is stored with the canonical "sha256:<hex>")
+			if strings.Replace(got.Layers[i].Digest, "sha256-", "sha256:", 1) != strings.Replace(want.Layers[i].Digest, "sha256-", "sha256:", 1) || got.Layers[i].Size != want.Layers[i].Size || got.Layers[i].MediaType != want.Layers[i].MediaType {
 				return fmt.Errorf("stored manifest of %s: layer %d is %+v, served %+v", name, i, got.Layers[i], want.Layers[i])
 			}
 		}
@@ -518,8 +557,9 @@ func frCheckStore(name string, want *Manifest, sizeLied ...map[string]bool) erro
 		if int64(len(b)) != l.Size && !(len(sizeLied) > 0 && sizeLied[0][l.Digest]) {
 			return fmt.Errorf("layer %s of %s has %d bytes in the store, manifest says %d", l.Digest[:19], name, len(b), l.Size)
 		}
-		if d := frDigest(b); d != l.Digest {
-			return fmt.Errorf("layer %s of %s is corrupt in the store (content hashes to %s)", l.Digest[:19], name, d[:19])
+		// a digest may be spelled with either separator and in either case (GetBlobsPath accepts all): the hash decides
+		if d := frDigest(b); d != strings.ToLower(strings.Replace(l.Digest, "sha256-", "sha256:", 1)) {
+			return fmt.Errorf("layer %s of %s is corrupt in the store (content hashes to %s)", l.Digest[:min(19, len(l.Digest))], name, d[:19])
 		}
 	}
 	return nil
